@@ -4,6 +4,9 @@ R5.1 STATUS-PAIR   flag typestate: no path through a member leaves a claim about
                    (up to date / minimized) standing after the description it was derived from,
                    or the description itself, has been written
 R5.3 COPY-SIBLINGS the copy constructor and operator= treat the source's states alike
+R5.5 PRECONDITIONS every asserted (or tabled implicit) up-to-date precondition is entailed by the
+                   state of the object handed over, and every content read of con_sys / gen_sys
+                   happens where that description is known up to date
 Hermite reduction, conversion, relation_with, frequency, difference: arithmetic, not decided.
 """
 import os
@@ -139,6 +142,26 @@ def r5_3(ctx, fx):
     ctx.floor(rid, n, 1, "classes with state-dependent copy operations that rely on a canonical empty representation")
 
 
+R55_EXC = {
+    ("Grid", "assert", "GU"): "Grid(const Polyhedron&): `use_constraints = ph.constraints_are_minimized() || !ph.generators_are_up_to_date()` is a computed bool the explorer cannot correlate; in its false branch the generators are up to date",
+    ("upper_bound_assign_if_exact", "assert", "GU"): "the preceding x.is_included_in(y) returned false, which it does only after bringing the generators of x up to date (read in Grid_nonpublic.cc)",
+    ("generalized_affine_image", "update_generators"): ("this", "add_recycled_congruences(new_cgs1) with a non-empty system brings the congruences up to date before inserting (or finds the grid empty, excluded by the `!is_empty()` guard)"),
+    ("generalized_affine_preimage", "update_generators"): ("this", "as for generalized_affine_image"),
+}
+
+
+def r5_5(ctx):
+    from rules import precond
+    rid = "R5.5"
+    ctx.rule(rid, "lazy-state assume/guarantee for Grid: the PPL_ASSERTs about congruences/generators being up to date or minimized (mined from the assertion-enabled view) are entry preconditions discharged at every call site along every CFG path, or entailed where they stand; update_congruences() additionally requires generators up to date (tabled implicit precondition); every content read of con_sys (gen_sys) happens in a state entailing congruences (generators) up to date. State: branch tests, update_* / minimize / set_* / clear_* members, and the invariants `minimized implies up to date` and `a non-empty grid has one description up to date`")
+    prev = precond.use(precond.GRID)
+    try:
+        n = precond.discharge(ctx, rid, R55_EXC, judged_atoms=("CU", "GU"), direct=True)
+    finally:
+        precond.use(prev)
+    ctx.floor(rid, n, 120, "assertions, call sites and description reads with lazy-state obligations")
+
+
 def run(ctx):
     ctx.explanation = ("C05 Grid lazy-status protocol as a flag typestate over all CFG paths; decides the protocol clause, not the lattice arithmetic")
     fx = ctx.extract(units())
@@ -147,3 +170,4 @@ def run(ctx):
                        F.lib_unit("Polyhedron_public.cc", name_re=r"Polyhedron::(constraints|generators)$"),
                        F.lib_unit("Grid_public.cc", name_re=r"Grid::Grid|operator=|Grid::(congruences|grid_generators|minimized_)")])
     r5_3(ctx, fx2)
+    r5_5(ctx)
